@@ -89,9 +89,8 @@ class TaskTiming(Contract):
         return out
 
     def scenario(self, ps, P, case):
-        pb = ps.SchedulingProblem(name="pb", horizon=P.int("H") if case["horizon"] else None)
-        for i in range(case["nbefore"]):
-            ps.ZeroDurationTask(name=f"before{i}")
+        pb = ps.SchedulingProblem(name="pb", horizon=P.int("H")) if case["horizon"] else ps.SchedulingProblem(name="pb")
+        before = [ps.ZeroDurationTask(name=f"before{i}") for i in range(case["nbefore"])]
         t = make_task(
             ps,
             P,
@@ -105,7 +104,7 @@ class TaskTiming(Contract):
         )
         solver = ps.SchedulingSolver(problem=pb)
         solver.initialize()
-        return dict(pb=pb, t=t, solver=solver)
+        return dict(pb=pb, t=t, solver=solver, before=before)
 
     def raises(self, P, case):
         bad = task_accept_condition(P, case["cls"], "t", case["release"], case["due"], case["vdt"])
@@ -143,8 +142,9 @@ class TaskTiming(Contract):
             dom.append(T(t.release_date) >= 0)
         if t.due_date is not None:
             dom.append(T(t.due_date) >= 0)
+        others = [spec.task_timing(b, hz, H) for b in ctx["before"]]
         out.append(
-            Clause("complete[scheduled]", And(*A), hyps=[s, timing] + dom, props=("C05", "C06"), kind="complete")
+            Clause("complete[scheduled]", And(*A), hyps=[s, timing] + dom + others, props=("C05", "C06"), kind="complete")
         )
         # ... and an optional task can always be left out (witness: the library's own convention
         # start = end = -task_number, duration 0), whatever its release date / due date
@@ -153,7 +153,7 @@ class TaskTiming(Contract):
             if case["cls"] == "VariableDurationTask":
                 wit.append((t._duration, z3.IntVal(0)))
             goal = z3.substitute(And(*A), *wit)
-            hyps = [Not(s), hz >= 0] + ([hz <= T(H)] if H is not None else []) + dom
+            hyps = [Not(s), hz >= 0] + ([hz <= T(H)] if H is not None else []) + dom + others
             regions = {}
             if t.release_date is not None:
                 regions["release_date>0"] = T(t.release_date) > 0
